@@ -24,21 +24,22 @@ Lemma pending_of_conn s k cn : conns s k = Some cn -> pending_of s k = pending (
 Proof. intro H. unfold pending_of, pend_c0. rewrite H. destruct (c_cc cn); reflexivity. Qed.
 
 (* effect of the handler on the pending challenge and on the nonce counter *)
-Lemma auth_result_pending s c a m s1 c1 ar : auth_result hmac mf pb s c a m s1 c1 ar ->
+Lemma auth_result_pending keep s c a m s1 c1 ar : auth_result hmac mf pb keep s c a m s1 c1 ar ->
   (pending c1 = pending c /\ next_nonce s1 = next_nonce s) \/
   (pending c1 = Some (next_nonce s) /\ next_nonce s1 = next_nonce s + 1) \/
   (pending c1 = None /\ next_nonce s1 = next_nonce s).
 Proof.
   intro H; destruct H; cbn;
-    try (left; split; [reflexivity|]; try reflexivity; destruct (rf_frame mf pb s a) as (_ & _ & _ & _ & Hn); exact Hn).
+    try (left; split; [reflexivity|]; try reflexivity; try (unfold first_state; destruct keep; reflexivity);
+         destruct (rf_frame mf pb s a) as (_ & _ & _ & _ & Hn); exact Hn).
   - right. left. split; reflexivity.
   - right. right. split; reflexivity.
   - right. right. split; [reflexivity|]. destruct (rf_frame mf pb s a) as (_ & _ & _ & _ & Hn); exact Hn.
 Qed.
 
-Lemma verif_target_consumed s k m cn ch s1 c1 ar :
+Lemma verif_target_consumed keep s k m cn ch s1 c1 ar :
   conns s k = Some cn -> verif_target s k m = Some ch ->
-  auth_result hmac mf pb s (pend_c0 cn) (c_addr cn) m s1 c1 ar ->
+  auth_result hmac mf pb keep s (pend_c0 cn) (c_addr cn) m s1 c1 ar ->
   pending (pend_c0 cn) = Some ch /\ pending c1 = None /\ next_nonce s1 = next_nonce s.
 Proof.
   intros Hc Hv Har. unfold verif_target in Hv. rewrite Hc in Hv.
@@ -65,15 +66,15 @@ Qed.
 
 (* pending challenges after a handshake: on the acting connection what the handler left, elsewhere unchanged or gone *)
 Lemma handle_pending v s k h cn s1 c1 ar :
-  conns s k = Some cn -> auth s (pend_c0 cn) (c_addr cn) h = (s1, c1, ar) ->
+  conns s k = Some cn -> auth (v_first_keeps v) s (pend_c0 cn) (c_addr cn) h = (s1, c1, ar) ->
   let s' := fst (handle v s k (Some h)) in
   next_nonce s' = next_nonce s1 /\
   pending_of s' k = pending c1 /\
   (forall k', k' <> k -> pending_of s' k' = pending_of s k' \/ pending_of s' k' = None).
 Proof.
   intros Hc Ha s'.
-  pose proof (auth_cases hmac mf pb s (pend_c0 cn) (c_addr cn) h) as Har. rewrite Ha in Har.
-  destruct (auth_result_frame _ _ _ _ _ _ _ _ _ _ Har) as [Hcs _].
+  pose proof (auth_cases hmac mf pb (v_first_keeps v) s (pend_c0 cn) (c_addr cn) h) as Har. rewrite Ha in Har.
+  destruct (auth_result_frame _ _ _ _ _ _ _ _ _ _ _ Har) as [Hcs _].
   destruct (handle_shape hmac mf pb v s k h cn Hc s1 c1 ar Ha) as [He|(He & _ & _ & _)]; unfold s'; rewrite He.
   - split; [reflexivity|]. split.
     + unfold pending_of. rewrite post_auth_conns, N.eqb_refl. reflexivity.
@@ -123,10 +124,10 @@ Proof.
     try (split; [cbn; lia|intros k' n H; left; exact H]).
   - (* EMsg *) destruct m as [h|]; [|split; [cbn; lia|intros k' n H; left; exact H]].
     destruct (conns s k) as [cn|] eqn:Hc; [|unfold Auth.handle; rewrite Hc; split; [cbn; lia|intros k' n H; left; exact H]].
-    destruct (auth s (pend_c0 cn) (c_addr cn) h) as [[s1 c1] ar] eqn:Ha.
-    pose proof (auth_cases hmac mf pb s (pend_c0 cn) (c_addr cn) h) as Har. rewrite Ha in Har.
+    destruct (auth (v_first_keeps v) s (pend_c0 cn) (c_addr cn) h) as [[s1 c1] ar] eqn:Ha.
+    pose proof (auth_cases hmac mf pb (v_first_keeps v) s (pend_c0 cn) (c_addr cn) h) as Har. rewrite Ha in Har.
     destruct (handle_pending v s k h cn s1 c1 ar Hc Ha) as (Hn & Hk & Ho). cbv zeta in *.
-    pose proof (auth_result_pending _ _ _ _ _ _ _ Har) as Hp.
+    pose proof (auth_result_pending _ _ _ _ _ _ _ _ Har) as Hp.
     split; [rewrite Hn; destruct Hp as [[_ E]|[[_ E]|[_ E]]]; lia|].
     intros k' n H. destruct (N.eq_dec k' k) as [->|Hne].
     + rewrite Hk in H. rewrite Hn. rewrite (pending_of_conn s k cn Hc).
@@ -163,7 +164,7 @@ Proof.
       all: destruct (N.eq_dec k1 k2) as [E|Hne]; [exact E|exfalso].
       all: try (destruct m as [h|]; [|specialize (H1 _ _ Ha); lia];
            destruct (conns s k) as [cn|] eqn:Hc; [|unfold Auth.handle in Ha; rewrite Hc in Ha; specialize (H1 _ _ Ha); lia];
-           destruct (auth s (pend_c0 cn) (c_addr cn) h) as [[s1 c1] ar] eqn:Hau;
+           destruct (auth (v_first_keeps v) s (pend_c0 cn) (c_addr cn) h) as [[s1 c1] ar] eqn:Hau;
            destruct (handle_pending v s k h cn s1 c1 ar Hc Hau) as (_ & _ & Ho); cbv zeta in Ho;
            destruct (N.eq_dec k1 k) as [->|Hn1];
            [ destruct (Ho k2 (not_eq_sym Hne)) as [E|E]; rewrite E in Hb; [specialize (H1 _ _ Hb); lia|discriminate]
@@ -211,9 +212,9 @@ Proof.
   intros [H1 H2] Hv. cbn [Auth.step]. cbv zeta.
   pose proof (verif_target_pending _ _ _ _ Hv) as Hpk.
   destruct (conns s k) as [cn|] eqn:Hc; [|unfold pending_of in Hpk; rewrite Hc in Hpk; discriminate].
-  destruct (auth s (pend_c0 cn) (c_addr cn) m) as [[s1 c1] ar] eqn:Ha.
-  pose proof (auth_cases hmac mf pb s (pend_c0 cn) (c_addr cn) m) as Har. rewrite Ha in Har.
-  destruct (verif_target_consumed _ _ _ _ _ _ _ _ Hc Hv Har) as (_ & Hnone & Hnn).
+  destruct (auth (v_first_keeps v) s (pend_c0 cn) (c_addr cn) m) as [[s1 c1] ar] eqn:Ha.
+  pose proof (auth_cases hmac mf pb (v_first_keeps v) s (pend_c0 cn) (c_addr cn) m) as Har. rewrite Ha in Har.
+  destruct (verif_target_consumed _ _ _ _ _ _ _ _ _ Hc Hv Har) as (_ & Hnone & Hnn).
   destruct (handle_pending v s k m cn s1 c1 ar Hc Ha) as (Hn & Hk & Ho). cbv zeta in *.
   split; [|rewrite Hn; exact Hnn].
   intros k' Hk'. destruct (N.eq_dec k' k) as [->|Hne].
@@ -244,8 +245,8 @@ Theorem success_is_a_counted_verification v s k h : pend_inv s ->
 Proof.
   intros [H1 _] Ho.
   destruct (conns s k) as [cn|] eqn:Hc; [|unfold Auth.handle in Ho; rewrite Hc in Ho; discriminate].
-  destruct (auth s (pend_c0 cn) (c_addr cn) h) as [[s1 c1] ar] eqn:Ha.
-  pose proof (auth_cases hmac mf pb s (pend_c0 cn) (c_addr cn) h) as Har. rewrite Ha in Har.
+  destruct (auth (v_first_keeps v) s (pend_c0 cn) (c_addr cn) h) as [[s1 c1] ar] eqn:Ha.
+  pose proof (auth_cases hmac mf pb (v_first_keeps v) s (pend_c0 cn) (c_addr cn) h) as Har. rewrite Ha in Har.
   rewrite (handle_out_auth hmac mf pb v s k h cn Hc _ _ _ Ha) in Ho. injection Ho as ->.
   inversion Har as [| | | | | |cl ch Hb Hn Hcl He Hr Hp|]; subst.
   exists ch. split.
